@@ -293,6 +293,7 @@ def run_scenario(sc):
     try:
         with mtt.trace_calls(logger, sc["k"], code_filter, sc["rate"] or None):
             tracer = sys.getprofile()
+            S.thread_profiler = tracer if sc.get("threads") else None
             S.drive()
     except script.ScriptError:
         raise
@@ -306,6 +307,7 @@ def run_scenario(sc):
                 pass
         mtt.random = old_random
         _random_mod.Random.randrange = orig_randrange
+    S.thread_profiler = None
     resid = residue_count(tracer, S)
     S.emit(ev="End", resid=resid, flushes=logger.flushes, err=err)
     events = S.events
@@ -709,7 +711,7 @@ def main(pid, tier, seed, replay=None):
             tid = len(scs) + 1
             rate = rates[i % len(rates)]
             scs.append({"tid": tid, "hist": b["hist"], "rate": rate, "k": 0, "seed": seed * 7919 + i, "twin_rejected": i % 4 == 3, "falsy_filter": i % 16 == 5,
-                        "log_fails": (1 + i % 3) if i % 8 == 6 else 0, "nested": i % 9 == 4})
+                        "log_fails": (1 + i % 3) if i % 8 == 6 else 0, "nested": i % 9 == 4, "threads": i % 11 == 7})
             preds[tid] = b["pred"]
             if i % 5 == 0:   # the same behaviour with rich values (no prediction; P-layer only)
                 scs.append({"tid": tid + 1, "hist": b["hist"], "rate": rate, "k": rng.choice([0, 3]),
@@ -739,7 +741,7 @@ def main(pid, tier, seed, replay=None):
     for v in verdicts:
         rec, sc = by_tid[v["tid"]], sc_by_tid[v["tid"]]
         for clause in v.get("viol", []):
-            case = {k: sc[k] for k in ("hist", "rate", "k", "seed", "twin_rejected", "falsy_filter", "log_fails", "nested", "filter_values") if k in sc}
+            case = {k: sc[k] for k in ("hist", "rate", "k", "seed", "twin_rejected", "falsy_filter", "log_fails", "nested", "filter_values", "threads") if k in sc}
             if "rich" in sc:
                 case["rich"] = sc["rich"]
             run.violation(scenario_signature(rec, sc, clause), case)
